@@ -144,20 +144,42 @@ def finish_run(prop, w, idx, detail):
         "order": hashlib.blake2b(repr(w.slot_order).encode(),
                                  digest_size=8).hexdigest(),
     }
-    if own or detail:
-        res["ops"] = w.ops
+    res["ops"] = w.ops
     if detail:
         res["events"] = w.events
         res["sample"] = prop.sample(w)
     return res
 
 
+SID_STRIDE = 100000
+
+
+def remap_ops(ops, k):
+    """Renumber the slot ids of one run's ops so that several runs can be
+    concatenated into one history."""
+    out = []
+    for op in ops:
+        if op[0] in ("new", "next", "drain", "over", "fin", "obs", "del",
+                     "conclude") and isinstance(op[1], int):
+            op = [op[0], op[1] + SID_STRIDE * k] + list(op[2:])
+        out.append(op)
+    return out
+
+
 def _batch(arg):
     prop, seed, tier, idxs, want_sample = arg
     out = []
+    earlier = []
     for idx in idxs:
-        out.append(execute_run(prop, seed, tier, idx,
-                               detail=(idx in want_sample)))
+        res = execute_run(prop, seed, tier, idx, detail=(idx in want_sample))
+        ops = res["ops"]
+        if res["viol"]:
+            # the history of this process up to and including this run
+            res["prefix"] = list(earlier)
+        elif "sample" not in res:
+            del res["ops"]
+        earlier.append(ops)
+        out.append(res)
     return out
 
 
@@ -211,7 +233,8 @@ class Agg:
                     if sig in seen:
                         continue
                     seen.add(sig)
-                    self.viol.append((res["idx"], v, res["ops"]))
+                    self.viol.append((res["idx"], v, res["ops"],
+                                      res.get("prefix") or []))
         if "sample" in res and len(self.samples) < 4:
             self.samples.append({"idx": res["idx"], "ops": _short_ops(
                 res["ops"]), "outcome": res["sample"]})
